@@ -96,6 +96,9 @@ META = dict(
 META["rule"] += (
     " " + 'Added after the second round of seeded changes: rectangular-grid axes are passed as float64 / float32 / integer arrays or lists (mixed across axes).')
 
+META["rule"] += (
+    " " + 'Added after the third round: node weights after switching the type back, after hand-set weights followed by the same type, and on ClimateNetwork objects of the same grid (constructor, set_threshold, set_link_density).')
+
 STYLES = ["generic", "pole", "antimeridian", "coincident", "antipodal",
           "regular", "mixed"]
 
